@@ -136,9 +136,15 @@ impl Interpreter {
                 state.stack.push(top_data);
             }
             OpCodes::OP_NIP => {
+                if state.stack.len() < 2 {
+                    return Err(InterpreterError::InvalidStackOperation("OP_NIP requires at least 2 items on the stack"));
+                }
                 state.stack.remove(state.stack.len() - 2);
             }
             OpCodes::OP_OVER => {
+                if state.stack.len() < 2 {
+                    return Err(InterpreterError::InvalidStackOperation("OP_OVER requires at least 2 items on the stack"));
+                }
                 let index = state.stack.len() - 2;
                 let second_last = state.stack.get(index).cloned().ok_or(InterpreterError::NumberOutOfRange)?;
                 state.stack.push_bytes(second_last);
@@ -154,16 +160,25 @@ impl Interpreter {
                 state.stack.push_bytes(selected_item);
             }
             OpCodes::OP_ROT => {
+                if state.stack.len() < 3 {
+                    return Err(InterpreterError::InvalidStackOperation("OP_ROT requires at least 3 items on the stack"));
+                }
                 let len = state.stack.len();
                 let third = state.stack.remove(len - 3);
 
                 state.stack.push_bytes(third);
             }
             OpCodes::OP_SWAP => {
+                if state.stack.len() < 2 {
+                    return Err(InterpreterError::InvalidStackOperation("OP_SWAP requires at least 2 items on the stack"));
+                }
                 let len = state.stack.len();
                 state.stack.swap(len - 1, len - 2);
             }
             OpCodes::OP_TUCK => {
+                if state.stack.len() < 2 {
+                    return Err(InterpreterError::InvalidStackOperation("OP_TUCK requires at least 2 items on the stack"));
+                }
                 let selected_item = state.stack.last().cloned().ok_or(InterpreterError::NumberOutOfRange)?;
                 state.stack.insert(state.stack.len() - 2, selected_item);
             }
@@ -172,6 +187,9 @@ impl Interpreter {
                 state.stack.pop_bytes()?;
             }
             OpCodes::OP_2DUP => {
+                if state.stack.len() < 2 {
+                    return Err(InterpreterError::InvalidStackOperation("OP_2DUP requires at least 2 items on the stack"));
+                }
                 let first = state.stack.last().cloned().ok_or(InterpreterError::NumberOutOfRange)?;
                 let second = state.stack.get(state.stack.len() - 2).cloned().ok_or(InterpreterError::NumberOutOfRange)?;
 
@@ -179,6 +197,9 @@ impl Interpreter {
                 state.stack.push_bytes(second);
             }
             OpCodes::OP_3DUP => {
+                if state.stack.len() < 3 {
+                    return Err(InterpreterError::InvalidStackOperation("OP_3DUP requires at least 3 items on the stack"));
+                }
                 let first = state.stack.last().cloned().ok_or(InterpreterError::NumberOutOfRange)?;
                 let second = state.stack.get(state.stack.len() - 2).cloned().ok_or(InterpreterError::NumberOutOfRange)?;
                 let third = state.stack.get(state.stack.len() - 3).cloned().ok_or(InterpreterError::NumberOutOfRange)?;
@@ -188,6 +209,9 @@ impl Interpreter {
                 state.stack.push_bytes(third);
             }
             OpCodes::OP_2OVER => {
+                if state.stack.len() < 4 {
+                    return Err(InterpreterError::InvalidStackOperation("OP_2OVER requires at least 4 items on the stack"));
+                }
                 let len = state.stack.len();
                 let third = state.stack[len - 3].clone();
                 let fourth = state.stack[len - 4].clone();
@@ -195,6 +219,9 @@ impl Interpreter {
                 state.stack.push_bytes(third);
             }
             OpCodes::OP_2ROT => {
+                if state.stack.len() < 6 {
+                    return Err(InterpreterError::InvalidStackOperation("OP_2ROT requires at least 6 items on the stack"));
+                }
                 let index = state.stack.len() - 6;
                 let sixth = state.stack.remove(index);
                 let fifth = state.stack.remove(index);
@@ -231,7 +258,7 @@ impl Interpreter {
             }
 
             OpCodes::OP_SIZE => {
-                let len = state.stack.last().unwrap().len();
+                let len = state.stack.last().ok_or(InterpreterError::EmptyStack)?.len();
                 state.stack.push_number(len as i64)?;
             }
             OpCodes::OP_INVERT => {
